@@ -805,6 +805,19 @@ def _generate(loader):
                         del calls[:]
                         t.disp()
                         entry("disp-own-grid:" + tag, ac, None if resize else "grid_reshape", gshape)
+                        # dense field on ANOTHER grid (other sizes, other flag): the buffer is sampled with the OWN flag at the other grid's
+                        # points mapped into the own cube (plain tensor path: sample_flow + Grid.transform_vectors)
+                        go = mk_grid(Grid, D, p="o", align=not ac)
+                        go._size = st.tensor([5.0, 3.0] if D == 2 else [5.0, 3.0, 3.0])
+                        st.GENERIC_DISTINCT = True
+                        try:
+                            del calls[:]
+                            do = t.disp(go)
+                        finally:
+                            st.GENERIC_DISTINCT = False
+                        if tuple(do.shape) != (1, D) + tuple(int(v) for v in reversed([5, 3] if D == 2 else [5, 3, 3])):
+                            raise TraceError(f"disp(other grid) of a dense field has shape {tuple(do.shape)}")
+                        entry("disp-other-grid:" + tag, ac, "grid_sample", None)
                         xp = st.Tensor(np.array([E.var(f"x{i}") for i in range(D)], dtype=object).reshape(1, 1, D))
                         del calls[:]
                         base.SpatialTransform.forward(t, xp)
